@@ -280,6 +280,116 @@ fn generic<F: ShortMessageFactory + Copy>(carrier: &'static str, structured: boo
     }
 }
 
+
+/// How a constructor is called: every factory function is also called with path syntax on the
+/// concrete type (`RawShortMessage::note_on(..)` — an inherent function of the same name would
+/// shadow the trait's) and must build what the trait-dispatched call builds.
+macro_rules! concrete_factories {
+    ($T:ty, $carrier:expr, $cfg:expr, $rep:expr) => {{
+        let rep: &mut Report = $rep;
+        let cfg: &Cfg = $cfg;
+        let carrier: &'static str = $carrier;
+        let dsample: Vec<u8> = if cfg.as_c18 && !cfg.thorough { vec![0, 1, 64, 127] } else { (0u8..128).collect() };
+        let bd: [u8; 5] = [0, 1, 64, 126, 127];
+        let mut calls = 0u64;
+        macro_rules! same {
+            ($name:expr, $args:expr, $direct:expr, $via_trait:expr) => {{
+                let d = api(concat!("ShortMessageFactory (path syntax on the concrete type)"), || $direct.to_bytes());
+                let t = api("ShortMessageFactory (trait dispatch)", || $via_trait.to_bytes());
+                calls += 2;
+                if d.is_none() || d != t {
+                    crate::viol!(
+                        rep,
+                        format!("C06:concrete-vs-trait:{}:{}", $name, carrier),
+                        format!("{}::{}{:?} built {:?} when called on the concrete type, {:?} through the trait", carrier, $name, $args, d, t),
+                        json!({"kind":"ctor","ctor":$name,"carrier":carrier,"args":format!("{:?}", $args),"call":"path syntax on the concrete type"})
+                    );
+                }
+            }};
+        }
+        for c in 0u8..16 {
+            for &a in &dsample {
+                for &b in &bd {
+                    same!("note_on", (c, a, b), <$T>::note_on(ch(c), kn(a), u7(b)), <$T as ShortMessageFactory>::note_on(ch(c), kn(a), u7(b)));
+                    same!("note_off", (c, a, b), <$T>::note_off(ch(c), kn(a), u7(b)), <$T as ShortMessageFactory>::note_off(ch(c), kn(a), u7(b)));
+                    same!("control_change", (c, a, b), <$T>::control_change(ch(c), cn(a), u7(b)), <$T as ShortMessageFactory>::control_change(ch(c), cn(a), u7(b)));
+                    same!("polyphonic_key_pressure", (c, a, b), <$T>::polyphonic_key_pressure(ch(c), kn(a), u7(b)), <$T as ShortMessageFactory>::polyphonic_key_pressure(ch(c), kn(a), u7(b)));
+                    let v = a as u16 * 128 + b as u16;
+                    same!("pitch_bend_change", (c, v), <$T>::pitch_bend_change(ch(c), u14(v)), <$T as ShortMessageFactory>::pitch_bend_change(ch(c), u14(v)));
+                    same!("from_bytes", (0x90 | c, a, b), <$T>::from_bytes((0x90 | c, u7(a), u7(b))).ok().unwrap(), <$T as ShortMessageFactory>::from_bytes((0x90 | c, u7(a), u7(b))).ok().unwrap());
+                }
+                same!("program_change", (c, a), <$T>::program_change(ch(c), u7(a)), <$T as ShortMessageFactory>::program_change(ch(c), u7(a)));
+                same!("channel_pressure", (c, a), <$T>::channel_pressure(ch(c), u7(a)), <$T as ShortMessageFactory>::channel_pressure(ch(c), u7(a)));
+            }
+        }
+        for &a in &dsample {
+            same!("song_select", (a,), <$T>::song_select(u7(a)), <$T as ShortMessageFactory>::song_select(u7(a)));
+            for &b in &bd {
+                let v = b as u16 * 128 + a as u16;
+                same!("song_position_pointer", (v,), <$T>::song_position_pointer(u14(v)), <$T as ShortMessageFactory>::song_position_pointer(u14(v)));
+            }
+        }
+        for (d1, f) in all_quarter_frames() {
+            same!("time_code_quarter_frame", (d1,), <$T>::time_code_quarter_frame(f), <$T as ShortMessageFactory>::time_code_quarter_frame(f));
+        }
+        same!("system_exclusive_start", (), <$T>::system_exclusive_start(), <$T as ShortMessageFactory>::system_exclusive_start());
+        same!("tune_request", (), <$T>::tune_request(), <$T as ShortMessageFactory>::tune_request());
+        same!("system_exclusive_end", (), <$T>::system_exclusive_end(), <$T as ShortMessageFactory>::system_exclusive_end());
+        same!("timing_clock", (), <$T>::timing_clock(), <$T as ShortMessageFactory>::timing_clock());
+        same!("start", (), <$T>::start(), <$T as ShortMessageFactory>::start());
+        same!("continue", (), <$T>::r#continue(), <$T as ShortMessageFactory>::r#continue());
+        same!("stop", (), <$T>::stop(), <$T as ShortMessageFactory>::stop());
+        same!("active_sensing", (), <$T>::active_sensing(), <$T as ShortMessageFactory>::active_sensing());
+        same!("system_reset", (), <$T>::system_reset(), <$T as ShortMessageFactory>::system_reset());
+        // from_other, and the three generic constructors for all 23 types (the panic condition too)
+        for (tb, ty, tname) in TYPES.iter() {
+            let is_channel = *tb < 0xF0;
+            let is_common = (0xF1..=0xF7).contains(tb);
+            let is_rt = *tb >= 0xF8;
+            macro_rules! same_or_panic {
+                ($name:expr, $expected_ok:expr, $args:expr, $direct:expr, $via_trait:expr) => {{
+                    if !(crate::mon::ABORT_BUILD && !$expected_ok) {
+                        let d = api_probe("ShortMessageFactory (path syntax on the concrete type)", || $direct.to_bytes()).ok();
+                        let t = api_probe("ShortMessageFactory (trait dispatch)", || $via_trait.to_bytes()).ok();
+                        calls += 2;
+                        if d != t || d.is_some() != $expected_ok {
+                            crate::viol!(
+                                rep,
+                                format!("C06:concrete-vs-trait:{}:{}:{}", $name, carrier, tname),
+                                format!("{}::{}({}, {:?}) gave {:?} when called on the concrete type, {:?} through the trait (None = panic; a panic is expected exactly for a type of another category)", carrier, $name, tname, $args, d, t),
+                                json!({"kind":"generic-ctor","ctor":$name,"carrier":carrier,"type":tname,"args":format!("{:?}", $args),"call":"path syntax on the concrete type"})
+                            );
+                        } else if d.is_none() {
+                            note_expected_panic("ShortMessageFactory (path syntax on the concrete type)");
+                            note_expected_panic("ShortMessageFactory (trait dispatch)");
+                        }
+                    }
+                }};
+            }
+            for c in [0u8, 1, 9, 15] {
+                for (a, b) in [(0u8, 0u8), (1, 2), (64, 127), (127, 0)] {
+                    same_or_panic!("channel_message", is_channel, (c, a, b), <$T>::channel_message(*ty, ch(c), u7(a), u7(b)), <$T as ShortMessageFactory>::channel_message(*ty, ch(c), u7(a), u7(b)));
+                }
+            }
+            for (a, b) in [(0u8, 0u8), (1, 2), (64, 127), (127, 0)] {
+                same_or_panic!("system_common_message", is_common, (a, b), <$T>::system_common_message(*ty, u7(a), u7(b)), <$T as ShortMessageFactory>::system_common_message(*ty, u7(a), u7(b)));
+            }
+            same_or_panic!("system_real_time_message", is_rt, (), <$T>::system_real_time_message(*ty), <$T as ShortMessageFactory>::system_real_time_message(*ty));
+            let src = RawShortMessage::from_bytes((*tb | if is_channel { 5 } else { 0 }, u7(33), u7(44))).ok();
+            if let Some(src) = src {
+                same!("from_other", (tname,), <$T>::from_other(&src), <$T as ShortMessageFactory>::from_other(&src));
+            }
+        }
+        rep.evaluations += calls;
+        rep.count("c06_constructor_calls_with_path_syntax_on_the_concrete_type", calls / 2);
+    }};
+}
+
+fn concrete_vs_trait(cfg: &Cfg, rep: &mut Report) {
+    concrete_factories!(RawShortMessage, "Raw", cfg, rep);
+    concrete_factories!(StructuredShortMessage, "Structured", cfg, rep);
+}
+
 /// test_util shorthands: each argument over its full primitive range, the others at boundaries.
 fn shorthands(cfg: &Cfg, rep: &mut Report) {
     use helgoboss_midi::test_util as tu;
@@ -513,7 +623,7 @@ fn shorthands(cfg: &Cfg, rep: &mut Report) {
 }
 
 pub fn run(cfg: &Cfg, rep: &mut Report) {
-    rep.rule("every argument tuple of all 23 named ShortMessageFactory constructors for Raw, Structured and a foreign implementor (16x128x128 for three-argument channel messages, all 16384 14-bit values x 16 channels, all 120 quarter frames); the three generic constructors x all 23 types x all channels x (all d1 x boundary d2 and vice versa); every test_util shorthand with each argument swept over its full u8/u16 range and the others at boundaries; non-trivial = a call whose result depends on its arguments (constructed message or expected panic); distinct by enumeration");
+    rep.rule("every argument tuple of all 23 named ShortMessageFactory constructors for Raw, Structured and a foreign implementor (16x128x128 for three-argument channel messages, all 16384 14-bit values x 16 channels, all 120 quarter frames); the three generic constructors x all 23 types x all channels x (all d1 x boundary d2 and vice versa); every test_util shorthand with each argument swept over its full u8/u16 range and the others at boundaries; non-trivial = a call whose result depends on its arguments (constructed message or expected panic); distinct by enumeration ; every constructor is also called with path syntax on the concrete types RawShortMessage / StructuredShortMessage (an inherent function would shadow the trait's) and compared with the trait-dispatched call");
     named::<RawShortMessage>("Raw", cfg, rep);
     named::<StructuredShortMessage>("Structured", cfg, rep);
     if !cfg.as_c18 {
@@ -521,6 +631,7 @@ pub fn run(cfg: &Cfg, rep: &mut Report) {
     }
     generic::<RawShortMessage>("Raw", false, cfg, rep);
     generic::<StructuredShortMessage>("Structured", true, cfg, rep);
+    concrete_vs_trait(cfg, rep);
     shorthands(cfg, rep);
     rep.set_exhaustive(!cfg.as_c18 || cfg.thorough);
     rep.sample(json!({"ctor":"pitch_bend_change(ch 3, 8193)","expected_bytes":[0xE3,1,64]}));
